@@ -3,7 +3,7 @@
    ini key) are Gen/GenIni.v, regenerated from the pika source tree on every run. *)
 From Coq Require Import String Ascii List NArith Bool Permutation.
 From Pika Require Import Gen.GenIni Model.Config Proofs.ConfigExpandProofs Proofs.ConfigExpandTermProofs
-  Proofs.ConfigProofs Proofs.ConfigPlainEnvProofs.
+  Proofs.ConfigExpandReadProofs Proofs.ConfigProofs Proofs.ConfigPlainEnvProofs.
 Import ListNotations.
 Open Scope string_scope.
 
@@ -523,6 +523,32 @@ Proof.
   repeat split; try (vm_compute; reflexivity).
   intros k v H. destruct (String.eqb k "k"); [injection H as <-; reflexivity|discriminate H].
 Qed.
+
+(* the same for an ENTRY: add_entry (expand_only with the entry's own key: every `${..}`, and `$[own key]`)
+   followed by get_entry (expand).  expand_only keeps `$[other.key]`, so what is STORED is not inert - but it
+   still meets the guard on texts (and has no more '$' than s), and what is READ is inert, free of closed
+   placeholders and a fixpoint, exactly as in C16_expand_result_no_placeholder.  [dollars s < xfuel]: the
+   nesting depth the executable model grants (100). *)
+Theorem C16_read_result_no_placeholder :
+  forall env look, env_values_plain env = true -> look_values_plain look ->
+  forall k s, text_guard s = true -> dollars s < xfuel ->
+    (exists r1, stored_x env look k s = XOk r1 /\ text_guard r1 = true /\ dollars r1 <= dollars s) /\
+    exists r, read_x env look k s = XOk r /\
+      inert r = true /\ closed_placeholder r = false /\ contains c_bs r = false /\ dollars r <= dollars s /\
+      (forall fuel' k', dollars r < fuel' ->
+         xp_all env look fuel' r = XOk r /\ xp_only env look fuel' k' r = XOk r).
+Proof. exact read_result_no_placeholder. Qed.
+Print Assumptions C16_read_result_no_placeholder.
+
+Example ex_read_guarded :
+  let env := [("A", "va"); ("B", "{x}"); ("E", "")] in
+  let look := fun k => if String.eqb k "k" then Some "kv" else if String.eqb k "me" then Some "own" else None in
+  let s := "a$b${A}${E}$[k]$[me]$[q:${B}]${U:d$e}${open$[k]" in
+  text_guard s = true /\ env_values_plain env = true /\
+  stored_x env look "me" s = XOk "a$bva$[k]own$[q:{x}]d$e${open$[k]" /\
+  read_x env look "me" s = XOk "a$bvakvown{x}d$e${openkv" /\
+  inert "a$bva$[k]own$[q:{x}]d$e${open$[k]" = false /\ inert "a$bvakvown{x}d$e${openkv" = true.
+Proof. repeat split; vm_compute; reflexivity. Qed.
 
 (* PRECEDENCE WITH A PLAIN ENVIRONMENT.  C16_cmdline_over_env_over_default and
    C16_threads_keywords_precedence assume [env_plain env n d] for the variable of the setting; here the
